@@ -236,4 +236,485 @@ Section Safe3.
     - intros Hn. apply fitsK_know. apply FK. exact Hn.
     - intros Hz. exists s. apply obs_st_zero; exact Hz.
   Qed.
+
+  (** ** real linearization points *)
+  Lemma zofN_inj x y : Z.of_N x = Z.of_N y -> x = y.
+  Proof. apply N2Z.inj. Qed.
+
+  Lemma abs_absent g S h : abs hs g S -> ~ present g h -> zmem (Z.of_N h) S = false.
+  Proof. intros HA Hn. destruct (zmem (Z.of_N h) S) eqn:E; [|reflexivity]. exfalso. apply Hn. apply HA. exact E. Qed.
+  Lemma abs_present g S h : abs hs g S -> present g h -> zmem (Z.of_N h) S = true.
+  Proof. intros HA Hn. apply HA. exact Hn. Qed.
+
+  (** CAS null -> new item at the thread's position: the linearization point of a successful insert / inserting update *)
+  Lemma safe3_cas_insert {R} t k id o r p (kont : V -> prog R) l s (Q : R -> L3 -> Prop) :
+    posP (hash k) p l -> idP k id l -> id <> 0 -> MF.open_read s o ->
+    (forall S, zmem (Z.of_N (hash k)) S = false -> set_step S o = (Z.of_N (hash k) :: S, r)) ->
+    (forall v, vok v = true -> safe3 t (kont v) (l, @Linearized SetSpec o r) Q) -> (forall v, vok v = false -> safe3 t (kont v) (l, s) Q) ->
+    safe3 t (Act (a_cas (parr p) (pidx p) snull (mkSlot id 0)) kont) (l, s) Q.
+  Proof.
+    intros HP HID Hid Hopen Hstep Hk1 Hk2. cbn [Conc.safe]. intros g A3 tr [HI HL] Hv. unfold view3 in Hv. injection Hv as Hv1 Hv2.
+    unfold a_cas. destruct (slot_eqb (arr g (parr p) (pidx p)) snull) eqn:E; cbn [fst snd].
+    - apply slot_eqb_eq in E.
+      destruct HP as (P1 & P2 & P3 & P4 & P5).
+      pose proof (i_known HI t) as HK. rewrite Hv1, P2, P3 in HK.
+      destruct HID as (D1 & D2).
+      destruct (i_items HI t) as [_ KI]. rewrite Hv1, D1 in KI. destruct (KI Hid) as [KI1 KI2]. rewrite D2 in KI2.
+      assert (Es : arr g (parr p) (cut (hash k) (ko l) (bits_of (parr p))) = snull) by (rewrite <- P5; exact E).
+      set (g' := with_arr g (set_slot (arr g) (parr p) (pidx p) (mkSlot id 0))).
+      assert (HI' : Inv g' (base A3) tr).
+      { eapply (Inv_data_cas Hh Ha) with (p := 0); [exact HI|exact E|exact HK|]. right. split; [|exact KI1].
+        unfold fits. rewrite KI2. split; [reflexivity|exact P5]. }
+      assert (Habs : ~ present g (hash k)).
+      { intros Hpr. apply (@obs_slot hbits abits hs Hh Ha g (base A3) tr (parr p) (ko l) (hash k) 0 HI HK Es) in Hpr. destruct Hpr; congruence. }
+      destruct (@IL_lin_real hs g g' A3 (base A3) tr t KCas (obj_slot (parr p) (pidx p)) true o r HL) as (atr' & HIL').
+      { rewrite Hv2. exact Hopen. }
+      { intros S HS. rewrite (Hstep S (abs_absent HS Habs)). cbn [fst snd]. split; [|reflexivity].
+        intros x. rewrite zmem_cons. unfold g'. rewrite P5.
+        assert (KIh : hash (ikey g id) = hash k) by (rewrite KI2; reflexivity).
+        rewrite (@insert_present hbits abits hs Hh Ha g (base A3) tr (parr p) (ko l) (hash k) id HI HK Es Hid KIh x). rewrite <- (HS x). split.
+        - intros Hx. apply orb_true_iff in Hx. destruct Hx as [Hx|Hx]; [left; apply Z.eqb_eq in Hx; apply zofN_inj; exact Hx|right; exact Hx].
+        - intros [->|Hx]; apply orb_true_iff; [left; apply Z.eqb_refl|right; exact Hx]. }
+      exists (set3 A3 (base A3) t (@Linearized SetSpec o r) atr'). split; [split; [eapply Inv_trace; exact HI'|exact HIL']|].
+      split; [apply frame3_set; apply frame_refl|]. rewrite view3_set_same. rewrite Hv1. apply Hk1. reflexivity.
+    - exists (set3 A3 (base A3) t (vst A3 t) (atr A3)). split; [split; [eapply Inv_trace; exact HI|apply IL_neutral with (g := g); [exact HL|apply same_refl]]|].
+      split; [apply frame3_set; apply frame_refl|]. rewrite view3_set_same. rewrite Hv1, Hv2. apply Hk2. reflexivity.
+  Qed.
+
+  (** CAS item -> null: the linearization point of a successful erase *)
+  Lemma safe3_cas_erase {R} t k kk p e (kont : V -> prog R) l s (Q : R -> L3 -> Prop) :
+    posP (hash k) p l -> sbits e = 0 -> sptr e <> 0 -> kit l = sptr e -> kkey l = kk -> hash kk = hash k ->
+    MF.open_read s (SErase (Z.of_N (hash k))) ->
+    (forall v, vok v = true -> safe3 t (kont v) (l, @Linearized SetSpec (SErase (Z.of_N (hash k))) (RBool true)) Q) -> (forall v, vok v = false -> safe3 t (kont v) (l, s) Q) ->
+    safe3 t (Act (a_cas (parr p) (pidx p) e snull) kont) (l, s) Q.
+  Proof.
+    intros HP He Hp0 Hkit Hkkey Hhash Hopen Hk1 Hk2. cbn [Conc.safe]. intros g A3 tr [HI HL] Hv. unfold view3 in Hv. injection Hv as Hv1 Hv2.
+    unfold a_cas. destruct (slot_eqb (arr g (parr p) (pidx p)) e) eqn:E; cbn [fst snd].
+    - apply slot_eqb_eq in E. destruct e as [pp bb]. cbn in He, Hp0, Hkit. subst bb.
+      destruct HP as (P1 & P2 & P3 & P4 & P5).
+      pose proof (i_known HI t) as HK. rewrite Hv1, P2 in HK.
+      destruct (i_items HI t) as [KI _]. rewrite Hv1, Hkit in KI. destruct (KI Hp0) as [_ KI2]. rewrite Hkkey in KI2.
+      set (g' := with_arr g (set_slot (arr g) (parr p) (pidx p) (mkSlot 0 0))).
+      assert (HI' : Inv g' (base A3) tr).
+      { eapply (Inv_data_cas Hh Ha); [exact HI|exact E|exact HK|]. left; reflexivity. }
+      assert (Hpres : present g (hash k)).
+      { exists (parr p), (pidx p), pp. split; [|rewrite KI2; exact Hhash].
+        split; [eapply (@pfx_reach hbits abits hs Hh Ha g (base A3) tr HI (ko l) (parr p) (ko l) _ (le_n _) HK)|]. exists 0. repeat split; auto. }
+      destruct (@IL_lin_real hs g g' A3 (base A3) tr t KCas (obj_slot (parr p) (pidx p)) true (SErase (Z.of_N (hash k))) (RBool true) HL) as (atr' & HIL').
+      { rewrite Hv2. exact Hopen. }
+      { intros S HS. cbn [set_step]. rewrite (abs_present HS Hpres). cbn [fst snd]. split; [|reflexivity].
+        intros x. unfold g'. rewrite (@erase_present hbits abits hs Hh Ha g (base A3) tr (parr p) _ _ (pidx p) pp HI HK E Hp0 x). rewrite KI2, Hhash. rewrite <- (HS x).
+        destruct (N.eq_dec x (hash k)) as [->|Hne].
+        - rewrite zmem_zdel_same. split; [discriminate|intros [_ Hc]; congruence].
+        - rewrite zmem_zdel_other by (intros Hc; apply Hne; apply zofN_inj; exact Hc). split; [intros Hx; split; assumption|intros [Hx _]; exact Hx]. }
+      exists (set3 A3 (base A3) t (@Linearized SetSpec (SErase (Z.of_N (hash k))) (RBool true)) atr').
+      split; [split; [eapply Inv_trace; exact HI'|exact HIL']|].
+      split; [apply frame3_set; apply frame_refl|]. rewrite view3_set_same. rewrite Hv1. apply Hk1. reflexivity.
+    - exists (set3 A3 (base A3) t (vst A3 t) (atr A3)). split; [split; [eapply Inv_trace; exact HI|apply IL_neutral with (g := g); [exact HL|apply same_refl]]|].
+      split; [apply frame3_set; apply frame_refl|]. rewrite view3_set_same. rewrite Hv1, Hv2. apply Hk2. reflexivity.
+  Qed.
+
+  (** CAS item -> new item with the same hash (update of an existing item): presence does not change *)
+  Lemma safe3_cas_replace {R} t k id kk p e (kont : V -> prog R) l s (Q : R -> L3 -> Prop) :
+    posP (hash k) p l -> idP k id l -> id <> 0 -> sbits e = 0 -> sptr e <> 0 -> kit l = sptr e -> kkey l = kk -> hash kk = hash k ->
+    (forall v, safe3 t (kont v) (l, s) Q) ->
+    safe3 t (Act (a_cas (parr p) (pidx p) e (mkSlot id 0)) kont) (l, s) Q.
+  Proof.
+    intros HP HID Hid He Hp0 Hkit Hkkey Hhash Hk. apply safe3_neutral. intros g A tr HI Hv. unfold a_cas.
+    destruct (slot_eqb (arr g (parr p) (pidx p)) e) eqn:E; cbn [fst snd].
+    - apply slot_eqb_eq in E. destruct e as [pp bb]. cbn in He, Hp0, Hkit. subst bb.
+      destruct HP as (P1 & P2 & P3 & P4 & P5).
+      pose proof (i_known HI t) as HK. unfold view in Hv. rewrite Hv, P2 in HK.
+      destruct HID as (D1 & D2).
+      destruct (i_items HI t) as [KI KJ]. rewrite Hv in KI, KJ. rewrite Hkit in KI. rewrite D1 in KJ.
+      destruct (KI Hp0) as [_ KI2]. rewrite Hkkey in KI2. destruct (KJ Hid) as [KJ1 KJ2]. rewrite D2 in KJ2.
+      exists A. split.
+      { eapply Inv_trace. eapply (Inv_data_cas Hh Ha); [exact HI|exact E|exact HK|]. right. split; [|exact KJ1].
+        unfold fits. rewrite KJ2. split; [rewrite P3; reflexivity|exact P5]. }
+      split; [apply frame_refl|]. split.
+      { intros x. apply (@replace_present hbits abits hs Hh Ha g A tr (parr p) _ _ (pidx p) pp id HI HK E Hp0 Hid). rewrite KJ2, KI2. symmetry. exact Hhash. }
+      split; [eauto|]. unfold view. rewrite Hv. apply Hk.
+    - exists A. split; [eapply Inv_trace; exact HI|]. split; [apply frame_refl|]. split; [apply same_refl|]. split; [eauto|].
+      rewrite Hv. apply Hk.
+  Qed.
+
+  Lemma safe3_retire {R} t (k : unit -> prog R) l s (Q : R -> L3 -> Prop) :
+    safe3 t (k tt) (l, s) Q -> safe3 t (Conc.bind (retire t) k) (l, s) Q.
+  Proof. intros H. unfold retire. cbn [Conc.bind]. apply safe3_nop. apply safe3_nop. exact H. Qed.
+
+  (** ** expand_slot: three presence-preserving accesses *)
+  Lemma safe3_expand t h k id p cur l s :
+    posP h p l -> idP k id l -> sbits (vslot cur) = 0 -> sptr (vslot cur) <> 0 ->
+    kit l = sptr (vslot cur) -> kkey l = vkey cur ->
+    safe3 t (expand_slot abits hs p cur) (l, s) (fun _ l3 => posP h p (fst l3) /\ idP k id (fst l3) /\ snd l3 = s).
+  Proof.
+    intros HP HID Hb Hp0 Hkit Hkkey. unfold expand_slot.
+    destruct (vslot cur) as [pp bb] eqn:Hcur. cbn in Hb, Hp0, Hkit. subst bb.
+    destruct HP as (P1 & P2 & P3 & P4 & P5).
+    apply safe3_neutral. intros g A tr HI Hv. unfold a_cas_conv.
+    destruct (slot_eqb (arr g (parr p) (pidx p)) (mkSlot pp 0)) eqn:E; cbn [fst snd vok vid sptr].
+    - apply slot_eqb_eq in E.
+      pose proof (i_known HI t) as HK. unfold view in Hv. rewrite Hv, P2 in HK.
+      exists (set_view A t (set_ph (views A t) (PConv (parr p) (pidx p) pp (narr g)))).
+      split; [eapply Inv_trace; eapply (Inv_conv Hh Ha); eauto; rewrite Hv; exact P1|]. split; [apply frame_set_view|].
+      split; [intros x; apply conv_preserves; exact E|]. split; [eauto|].
+      rewrite view_set_same. rewrite Hv. generalize (narr g). intros n.
+      (* the store *)
+      clear g A tr HI E HK Hv. apply safe3_neutral. intros g A tr HI Hv. cbn [a_st fst snd]. unfold view in Hv.
+      assert (Hph : ph (views A t) = PConv (parr p) (pidx p) pp n) by (rewrite Hv; reflexivity).
+      pose proof (i_known HI t) as HK. rewrite Hv in HK. cbn [set_ph ka ko kpre] in HK. rewrite P2 in HK.
+      destruct (i_items HI t) as [KI _]. rewrite Hv in KI. cbn [set_ph kit kkey] in KI. rewrite Hkit in KI. destruct (KI Hp0) as [_ KI2].
+      exists (set_view A t (set_ph (views A t) (PStored (parr p) (pidx p) pp n))).
+      replace (cut (hash (vkey cur)) (poff p) abits) with (cut (hash (ikey g pp)) (ko l + bits_of (parr p)) abits)
+        by (rewrite KI2, Hkkey, P4; reflexivity).
+      change (mkG (set_slot (arr g) n (cut (hash (ikey g pp)) (ko l + bits_of (parr p)) abits) (mkSlot pp 0)) (narr g) (nitem g) (ikey g) (count g))
+        with (with_arr g (set_slot (arr g) n (cut (hash (ikey g pp)) (ko l + bits_of (parr p)) abits) (mkSlot pp 0))).
+      split; [eapply Inv_trace; eapply (Inv_store Hh Ha); eauto|]. split; [apply frame_set_view|].
+      split; [intros x; eapply store_preserves; eauto|]. split; [eauto|].
+      rewrite view_set_same. rewrite Hv.
+      (* the linking CAS *)
+      clear g A tr HI Hv Hph HK KI KI2. apply safe3_neutral. intros g A tr HI Hv. unfold view in Hv. unfold a_cas.
+      assert (Hph : ph (views A t) = PStored (parr p) (pidx p) pp n) by (rewrite Hv; reflexivity).
+      destruct (i_pend HI t (or_intror Hph)) as (Hs & _).
+      rewrite Hs. cbn [sptr]. replace (slot_eqb (mkSlot pp 1) (mkSlot pp 1)) with true by (symmetry; apply slot_eqb_eq; reflexivity).
+      cbn [fst snd].
+      pose proof (i_known HI t) as HK. rewrite Hv in HK. cbn [set_ph ka ko kpre] in HK. rewrite P2 in HK.
+      exists (set_view (set_pfx A n (child (ko l) (kpre l) (bits_of (parr p)) (pidx p))) t (set_ph (views A t) PIdle)).
+      change (mkG (set_slot (arr g) (parr p) (pidx p) (mkSlot n 2)) (narr g) (nitem g) (ikey g) (count g))
+        with (with_arr g (set_slot (arr g) (parr p) (pidx p) (mkSlot n 2))).
+      split; [eapply Inv_trace; eapply (Inv_link Hh Ha); eauto|].
+      split; [intros u Hu; unfold view; cbn; destruct (Nat.eqb_spec u t); [congruence|reflexivity]|].
+      split; [intros x; eapply link_preserves; eauto|]. split; [eauto|].
+      unfold view at 1. cbn [views set_view set_pfx]. rewrite Nat.eqb_refl. rewrite Hv. cbn [set_ph ph ka ko kpre kit kkey kid kidk].
+      cbn. split; [repeat split; auto|]. split; [exact HID|reflexivity].
+    - exists A. split; [eapply Inv_trace; exact HI|]. split; [apply frame_refl|]. split; [apply same_refl|]. split; [eauto|].
+      rewrite Hv. cbn. split; [repeat split; auto|]. split; [exact HID|reflexivity].
+  Qed.
+
+  (** ** the loops *)
+  Definition rx (o : set_op) (x y : bool) : res := match o with SUpdate _ _ => RPair x y | _ => RBool x end.
+
+  Definition QL (o : set_op) : out -> L3 -> Prop :=
+    fun r l3 => ph (fst l3) = PIdle /\ match r with None => True | Some (x, y) => snd l3 = @Linearized SetSpec o (rx o x y) end.
+
+  Lemma lin_read_some o b r s0 : MF.obs_res o b = Some r -> MF.lin_read o b s0 = @Linearized SetSpec o r.
+  Proof. intros E. unfold MF.lin_read. rewrite E. reflexivity. Qed.
+
+  (** all W bits of the hash consumed: the item in the slot has the same hash *)
+  Lemma eos_contra k p l kk : posP (hash k) p l -> fitsK p l kk -> ~ (poff p < W) -> hash kk = hash k.
+  Proof.
+    intros (P1 & P2 & P3 & P4 & P5) (F1 & F2) Hn.
+    assert (E : (hash kk mod 2 ^ N.of_nat (ko l + bits_of (parr p)) = hash k mod 2 ^ N.of_nat (ko l + bits_of (parr p)))%N).
+    { rewrite !mod_extend. rewrite <- !cut_N. rewrite <- F2, <- P5. rewrite F1, P3. reflexivity. }
+    assert (Hle : (2 ^ N.of_nat W <= 2 ^ N.of_nat (ko l + bits_of (parr p)))%N) by (apply N.pow_le_mono_r; lia).
+    rewrite !N.mod_small in E; [exact E| |]; (eapply N.lt_le_trans; [apply Hbound|exact Hle]).
+  Qed.
+
+  Definition opU (is_update allow : bool) (z : Z) : set_op := if is_update then SUpdate z allow else SInsert z.
+
+  Lemma opU_key iu al z : MF.op_key (opU iu al z) = z.
+  Proof. destruct iu; reflexivity. Qed.
+
+  Lemma safe3_upd_loop t is_update allow g0 k id sf : id <> 0 -> (is_update = false -> allow = true) ->
+    let o := opU is_update allow (Z.of_N (hash k)) in
+    forall fuel p l s, posP (hash k) p l -> idP k id l -> MF.open_read s o ->
+    safe3 t (upd_loop abits W hs fuel sf is_update allow t g0 k id p) (l, s) (QL o).
+  Proof.
+    intros Hid Himp o. assert (Hkey : MF.op_key o = Z.of_N (hash k)) by apply opU_key.
+    induction fuel as [|fuel IH]; intros p l s HP HID Hopen; cbn [upd_loop].
+    - cbn. split; [apply HP|exact I].
+    - apply Conc.safe_bind. eapply Conc.safe_weaken; [|eapply safe3_traverse with (h := hash k) (k := k) (id := id); eauto].
+      intros [[p' v]|] [l1 s1] H1; cbn [fst snd] in H1; destruct H1 as (-> & H1); [|cbn; split; [exact H1|exact I]].
+      destruct H1 as (HP1 & HID1 & Hb).
+      apply Conc.safe_bind. eapply Conc.safe_weaken; [|eapply safe3_protect_arr with (h := hash k) (k := k) (id := id) (o := o); eauto].
+      intros [v'|] [l2 s2] H2; cbn [protP3 fst snd] in H2; destruct H2 as (Hopen2 & H2); [|cbn; split; [exact H2|exact I]].
+      destruct H2 as (HP2 & HID2 & K1 & K2 & FK & KS). cbn [fst snd] in HP2, HID2, K1, K2, FK, KS, Hopen2.
+      destruct (slot_eqb (vslot v') (vslot v)) eqn:E; cbn [negb].
+      2:{ apply IH; assumption. }
+      apply slot_eqb_eq in E.
+      assert (Hb' : sbits (vslot v') = 0) by (rewrite E; exact Hb).
+      destruct (KS Hb') as (s0 & Es2).
+      destruct (Nat.eqb_spec (sptr (vslot v)) 0) as [Hz|Hnz]; cbn [negb].
+      + (* empty slot: key absent at the observation *)
+        assert (Hob : obsb (hash k) v' = false) by (unfold obsb; rewrite E, Hz; reflexivity).
+        destruct allow.
+        * assert (Hsn : vslot v = snull) by (destruct (vslot v) as [a b]; cbn in *; subst; reflexivity).
+          eapply safe3_cas_insert with (k := k) (id := id) (o := o) (r := rx o true true); [exact HP2|exact HID2|exact Hid|exact Hopen2| | |].
+          -- intros S HS. unfold o, opU. destruct is_update; cbn [set_step rx]; rewrite HS; reflexivity.
+          -- intros c Hc. rewrite Hc. apply safe3_cnt. cbn. split; [apply HP2|reflexivity].
+          -- intros c Hc. rewrite Hc. apply IH; assumption.
+        * cbn. split; [apply HP2|]. rewrite Es2, Hob.
+          destruct is_update; [|specialize (Himp eq_refl); discriminate]. unfold o, opU; cbn. reflexivity.
+      + assert (Hit : itm (vslot v') = sptr (vslot v)) by (rewrite E; apply itm_data; assumption).
+        assert (Hitn : itm (vslot v') <> 0) by (rewrite Hit; exact Hnz).
+        destruct (N.eqb (hash (vkey v')) (hash k)) eqn:Eh.
+        * assert (Hob : obsb (hash k) v' = true).
+          { unfold obsb. rewrite E. destruct (Nat.eqb_spec (sptr (vslot v)) 0); [congruence|]. cbn. exact Eh. }
+          apply N.eqb_eq in Eh.
+          destruct is_update.
+          -- eapply safe3_cas_replace with (k := k) (id := id) (kk := vkey v');
+               [exact HP2|exact HID2|exact Hid|exact Hb|exact Hnz|rewrite K1; exact Hit|apply K2; exact Hitn|exact Eh|].
+             intros c. destruct (vok c).
+             ++ apply safe3_retire. cbn. split; [apply HP2|]. rewrite Es2, Hob. unfold o, opU; cbn. try reflexivity; destruct allow; reflexivity.
+             ++ apply IH; assumption.
+          -- cbn. split; [apply HP2|]. rewrite Es2, Hob. unfold o, opU; cbn. try reflexivity; destruct allow; reflexivity.
+        * assert (Hob : obsb (hash k) v' = false) by (unfold obsb; rewrite Eh; apply andb_false_r).
+          destruct allow.
+          -- destruct (Nat.ltb_spec (poff p') W) as [Hlt|Hge].
+             ++ apply Conc.safe_bind. eapply Conc.safe_weaken; [|eapply safe3_expand with (h := hash k) (k := k) (id := id); [exact HP2|exact HID2|exact Hb'|rewrite E; exact Hnz|rewrite K1, Hit, E; reflexivity|apply K2; exact Hitn]].
+                intros _ [l3 s3] (HP3 & HID3 & Es3). cbn [fst snd] in *. subst s3. apply IH; assumption.
+             ++ exfalso. assert (hash (vkey v') = hash k) by (eapply eos_contra; eauto; lia).
+                apply N.eqb_neq in Eh. congruence.
+          -- cbn. split; [apply HP2|]. rewrite Es2, Hob.
+             destruct is_update; [|specialize (Himp eq_refl); discriminate]. unfold o, opU; cbn. reflexivity.
+  Qed.
+
+  Lemma safe3_erase_loop t g0 k sf :
+    let o := SErase (Z.of_N (hash k)) in
+    forall fuel p l s, posP (hash k) p l -> MF.open_read s o ->
+    safe3 t (erase_loop abits hs fuel sf t g0 k p) (l, s) (QL o).
+  Proof.
+    intros o. induction fuel as [|fuel IH]; intros p l s HP Hopen; cbn [erase_loop].
+    - cbn. split; [apply HP|exact I].
+    - assert (HID : idP (kidk l) (kid l) l) by (split; reflexivity).
+      apply Conc.safe_bind. eapply Conc.safe_weaken; [|eapply safe3_traverse with (h := hash k) (k := kidk l) (id := kid l); eauto].
+      intros [[p' v]|] [l1 s1] H1; cbn [fst snd] in H1; destruct H1 as (-> & H1); [|cbn; split; [exact H1|exact I]].
+      destruct H1 as (HP1 & HID1 & Hb).
+      apply Conc.safe_bind. eapply Conc.safe_weaken; [|eapply safe3_protect with (h := hash k) (k := kidk l) (id := kid l) (o := o); eauto].
+      intros [v'|] [l2 s2] H2; cbn [protP3 fst snd] in H2; destruct H2 as (Hopen2 & H2); [|cbn; split; [exact H2|exact I]].
+      destruct H2 as (HP2 & HID2 & K1 & K2 & FK & KS). cbn [fst snd] in HP2, HID2, K1, K2, FK, KS, Hopen2.
+      destruct (slot_eqb (vslot v') (vslot v)) eqn:E; cbn [negb].
+      2:{ apply IH; assumption. }
+      apply slot_eqb_eq in E.
+      assert (Hb' : sbits (vslot v') = 0) by (rewrite E; exact Hb).
+      destruct (KS Hb') as (s0 & Es2).
+      destruct (Nat.eqb_spec (sptr (vslot v)) 0) as [Hz|Hnz]; cbn [negb].
+      + cbn. split; [apply HP2|]. rewrite Es2. unfold obsb. rewrite E, Hz. reflexivity.
+      + assert (Hit : itm (vslot v') = sptr (vslot v)) by (rewrite E; apply itm_data; assumption).
+        assert (Hitn : itm (vslot v') <> 0) by (rewrite Hit; exact Hnz).
+        destruct (N.eqb (hash (vkey v')) (hash k)) eqn:Eh.
+        * apply N.eqb_eq in Eh.
+          eapply safe3_cas_erase with (k := k) (kk := vkey v');
+            [exact HP2|exact Hb|exact Hnz|rewrite K1; exact Hit|apply K2; exact Hitn|exact Eh|exact Hopen2| |].
+          -- intros c Hc. rewrite Hc. apply safe3_retire. apply safe3_cnt. cbn. split; [apply HP2|reflexivity].
+          -- intros c Hc. rewrite Hc. apply IH; assumption.
+        * cbn. split; [apply HP2|]. rewrite Es2. unfold obsb. rewrite Eh, andb_false_r. reflexivity.
+  Qed.
+
+  Lemma safe3_find_loop t g0 k sf :
+    let o := SContains (Z.of_N (hash k)) in
+    forall fuel p l s, posP (hash k) p l -> MF.open_read s o ->
+    safe3 t (find_loop abits hs fuel sf t g0 k p) (l, s) (QL o).
+  Proof.
+    intros o. induction fuel as [|fuel IH]; intros p l s HP Hopen; cbn [find_loop].
+    - cbn. split; [apply HP|exact I].
+    - assert (HID : idP (kidk l) (kid l) l) by (split; reflexivity).
+      apply Conc.safe_bind. eapply Conc.safe_weaken; [|eapply safe3_traverse with (h := hash k) (k := kidk l) (id := kid l); eauto].
+      intros [[p' v]|] [l1 s1] H1; cbn [fst snd] in H1; destruct H1 as (-> & H1); [|cbn; split; [exact H1|exact I]].
+      destruct H1 as (HP1 & HID1 & Hb).
+      apply Conc.safe_bind. eapply Conc.safe_weaken; [|eapply safe3_protect with (h := hash k) (k := kidk l) (id := kid l) (o := o); eauto].
+      intros [v'|] [l2 s2] H2; cbn [protP3 fst snd] in H2; destruct H2 as (Hopen2 & H2); [|cbn; split; [exact H2|exact I]].
+      destruct H2 as (HP2 & HID2 & K1 & K2 & FK & KS). cbn [fst snd] in HP2, HID2, K1, K2, FK, KS, Hopen2.
+      destruct (slot_eqb (vslot v') (vslot v)) eqn:E; cbn [negb].
+      2:{ apply IH; assumption. }
+      apply slot_eqb_eq in E.
+      assert (Hb' : sbits (vslot v') = 0) by (rewrite E; exact Hb).
+      destruct (KS Hb') as (s0 & Es2).
+      cbn. split; [apply HP2|]. rewrite Es2. unfold obsb. rewrite E. reflexivity.
+  Qed.
+
+  (** ** invocation and response *)
+  Lemma fhfold_inv tr t c k :
+    fhfold hs (tr ++ Conc.tag t [EvCli "inv" [c; k]]) =
+    (fst (fhfold hs tr) ++ [@HInv SetSpec t (spec_op hs c k)], fun u => if Nat.eqb u t then Some (spec_op hs c k) else snd (fhfold hs tr) u).
+  Proof. rewrite fhfold_app. unfold Conc.tag. cbn [map fold_left]. unfold fhstep. destruct (fhfold hs tr). reflexivity. Qed.
+
+  Lemma fhfold_ret tr t a b o : snd (fhfold hs tr) t = Some o ->
+    fhfold hs (tr ++ Conc.tag t [EvCli "ret" [a; b]]) = (fst (fhfold hs tr) ++ [@HRes SetSpec t (res_of o a b)], snd (fhfold hs tr)).
+  Proof. intros H. rewrite fhfold_app. unfold Conc.tag. cbn [map fold_left]. unfold fhstep. destruct (fhfold hs tr) as [out pend]. cbn in *. rewrite H. reflexivity. Qed.
+
+  Lemma safe3_emit_inv {R} t c k (kont : prog R) l (Q : R -> L3 -> Prop) :
+    safe3 t kont (know l 0 0 0%N, @Pending SetSpec (spec_op hs (Z.of_nat c) (Z.of_nat k))) Q ->
+    safe3 t (Emit [ev_inv c k] kont) (l, @Idle SetSpec) Q.
+  Proof.
+    intros H. cbn [Conc.safe]. intros g A3 tr [HI [(S & stf & H1 & H2 & H3) H4 H5]] Hv. unfold view3 in Hv. injection Hv as Hv1 Hv2.
+    set (o := spec_op hs (Z.of_nat c) (Z.of_nat k)).
+    set (B := set_view (base A3) t (know (views (base A3) t) 0 0 0%N)).
+    exists (set3 A3 B t (@Pending SetSpec o) (atr A3 ++ [@AInv SetSpec t o])). unfold ev_inv.
+    split; [split|].
+    - eapply Inv_trace. apply Inv_know; [exact HI|apply (i_head HI)].
+    - constructor; cbn [atr vst set3].
+      + exists S, (upd stf t (@Pending SetSpec o)). split; [|split; [|exact H3]].
+        * eapply lp_append; [exact H1|]. cbn [lp_step]. rewrite H2, Hv2. reflexivity.
+        * intros u. unfold upd. destruct (Nat.eqb_spec u t); [reflexivity|apply H2].
+      + unfold full_hist. rewrite fhfold_inv. cbn [fst]. rewrite erase_app. cbn [erase]. rewrite H4. reflexivity.
+      + intros u o0 Hc. rewrite fhfold_inv. cbn [snd]. destruct (Nat.eqb_spec u t) as [->|Hu]; [cbn in Hc; exact Hc|apply H5; exact Hc].
+    - split; [apply frame3_set; apply frame_set_view|]. rewrite view3_set_same. unfold B. cbn [views set_view]. rewrite Nat.eqb_refl, Hv1. exact H.
+  Qed.
+
+  Lemma safe3_emit_ret {R} t x y o r (kont : prog R) l (Q : R -> L3 -> Prop) :
+    res_of o (zb x) (zb y) = r ->
+    safe3 t kont (l, @Idle SetSpec) Q ->
+    safe3 t (Emit [ev_ret x y] kont) (l, @Linearized SetSpec o r) Q.
+  Proof.
+    intros Hr H. cbn [Conc.safe]. intros g A3 tr [HI [(S & stf & H1 & H2 & H3) H4 H5]] Hv. unfold view3 in Hv. injection Hv as Hv1 Hv2.
+    exists (set3 A3 (base A3) t (@Idle SetSpec) (atr A3 ++ [@ARes SetSpec t r])). unfold ev_ret.
+    assert (Hp : snd (fhfold hs tr) t = Some o) by (apply H5; rewrite Hv2; reflexivity).
+    split; [split|].
+    - eapply Inv_trace. exact HI.
+    - constructor; cbn [atr vst set3].
+      + exists S, (upd stf t (@Idle SetSpec)). split; [|split; [|exact H3]].
+        * eapply lp_append; [exact H1|]. cbn [lp_step]. rewrite H2, Hv2.
+          replace (res_eqb SetSpec r r) with true by (symmetry; apply (res_eqb_spec SetSpec); reflexivity). reflexivity.
+        * intros u. unfold upd. destruct (Nat.eqb_spec u t); [reflexivity|apply H2].
+      + unfold full_hist. rewrite (fhfold_ret _ _ _ _ Hp). cbn [fst]. rewrite erase_app. cbn [erase]. rewrite H4, Hr. reflexivity.
+      + intros u o0 Hc. rewrite (fhfold_ret _ _ _ _ Hp). cbn [snd]. destruct (Nat.eqb_spec u t) as [->|Hu]; [cbn in Hc; discriminate|apply H5; exact Hc].
+    - split; [apply frame3_set; apply frame_refl|]. rewrite view3_set_same. rewrite Hv1. exact H.
+  Qed.
+
+  (** the new item of an insert / update: presence is about items already in the tree *)
+  Lemma same_new_item g A tr k : Inv g A tr ->
+    same_presence hs g (mkG (arr g) (narr g) (S (nitem g)) (fun x => if Nat.eqb x (S (nitem g)) then k else ikey g x) (count g)).
+  Proof.
+    intros HI x. set (g' := mkG _ _ _ _ _).
+    assert (R : forall y, reach_arr g' y <-> reach_arr g y) by (apply reach_arr_ext; intros; cbn; tauto).
+    assert (K : forall a i p, data_at g a i p -> ikey g' p = ikey g p).
+    { intros a i p (Hr & b & Hs & Hb & Hp0). destruct (reach_pfx HI Hr) as (o & pre & Hp).
+      destruct (i_data HI _ _ Hp Hs Hb Hp0) as (_ & Hle & _). cbn. destruct (Nat.eqb_spec p (S (nitem g))); [lia|reflexivity]. }
+    split; intros (a & i & p & (Hr & H) & Hx).
+    - assert (Hd : data_at g a i p) by (split; [apply R; exact Hr|exact H]). exists a, i, p. split; [exact Hd|]. rewrite <- (K a i p Hd). exact Hx.
+    - assert (Hd : data_at g a i p) by (split; assumption). exists a, i, p. split; [split; [apply R; exact Hr|exact H]|]. rewrite (K a i p Hd). exact Hx.
+  Qed.
+
+  Definition QI3 : option bool -> L3 -> Prop := fun _ l3 => ph (fst l3) = PIdle /\ (snd l3 = @Idle SetSpec \/ True).
+
+  Lemma zb_nz b : nz (zb b) = b.
+  Proof. destruct b; reflexivity. Qed.
+
+  Lemma spec_op_code c k :
+    spec_op hs (Z.of_nat c) (Z.of_nat k) =
+    if Nat.eqb c 1 then SInsert (Z.of_N (hash k)) else if Nat.eqb c 3 then SUpdate (Z.of_N (hash k)) true
+    else if Nat.eqb c 4 then SUpdate (Z.of_N (hash k)) false else if Nat.eqb c 7 then SErase (Z.of_N (hash k)) else SContains (Z.of_N (hash k)).
+  Proof.
+    unfold spec_op, hz. rewrite Nat2Z.id.
+    replace (Z.of_nat c =? 1)%Z with (Nat.eqb c 1) by (destruct (Nat.eqb_spec c 1); destruct (Z.eqb_spec (Z.of_nat c) 1); lia).
+    replace (Z.of_nat c =? 3)%Z with (Nat.eqb c 3) by (destruct (Nat.eqb_spec c 3); destruct (Z.eqb_spec (Z.of_nat c) 3); lia).
+    replace (Z.of_nat c =? 4)%Z with (Nat.eqb c 4) by (destruct (Nat.eqb_spec c 4); destruct (Z.eqb_spec (Z.of_nat c) 4); lia).
+    replace (Z.of_nat c =? 7)%Z with (Nat.eqb c 7) by (destruct (Nat.eqb_spec c 7); destruct (Z.eqb_spec (Z.of_nat c) 7); lia).
+    reflexivity.
+  Qed.
+
+  (** post-condition of an operation: the thread is idle again (or stopped out of fuel) *)
+  Definition QOP : option bool -> L3 -> Prop :=
+    fun r l3 => match r with Some _ => ph (fst l3) = PIdle /\ snd l3 = @Idle SetSpec | None => True end.
+
+  Lemma safe3_give_up t l s : safe3 t give_up (l, s) QOP.
+  Proof. unfold give_up. apply safe3_emit_other; [reflexivity|reflexivity|]. exact I. Qed.
+
+  Lemma safe3_run_op fuel t o gs l : ph l = PIdle -> safe3 t (run_op hbits abits W hs fuel t o gs) (l, @Idle SetSpec) QOP.
+  Proof.
+    intros HPh. unfold run_op.
+    destruct o as [|code [|kz [|x r]]]; try (cbn; split; [exact HPh|reflexivity]).
+    set (k := Z.to_nat kz). set (c := Z.to_nat code). clearbody k c.
+    destruct (Nat.eqb c 1 || Nat.eqb c 3 || Nat.eqb c 4) eqn:Ec.
+    - apply safe3_emit_inv. rewrite spec_op_code.
+      set (iu := negb (Nat.eqb c 1)). set (al := negb (Nat.eqb c 4)).
+      assert (Eo : (if Nat.eqb c 1 then SInsert (Z.of_N (hash k)) else if Nat.eqb c 3 then SUpdate (Z.of_N (hash k)) true
+                    else if Nat.eqb c 4 then SUpdate (Z.of_N (hash k)) false else if Nat.eqb c 7 then SErase (Z.of_N (hash k)) else SContains (Z.of_N (hash k)))
+                   = opU iu al (Z.of_N (hash k))).
+      { unfold iu, al, opU. destruct (Nat.eqb_spec c 1) as [E1|N1]; [reflexivity|]. destruct (Nat.eqb_spec c 3) as [E3|N3]; [rewrite E3; reflexivity|].
+        destruct (Nat.eqb_spec c 4) as [E4|N4]; [reflexivity|]. cbn in Ec. discriminate. }
+      rewrite Eo. set (o := opU iu al (Z.of_N (hash k))).
+      assert (Himp : iu = false -> al = true).
+      { unfold iu, al. destruct (Nat.eqb_spec c 1) as [E1|]; [rewrite E1; reflexivity|discriminate]. }
+      (* the new item *)
+      apply safe3_neutral. intros g A tr HI Hv. cbn [a_gst_new fst snd vid]. unfold view in Hv.
+      set (id := S (nitem g)).
+      set (l1 := know_id (know l 0 0 0%N) id k).
+      exists (set_view A t l1). split.
+      { eapply Inv_trace. apply Inv_view_fields; try (rewrite Hv; reflexivity).
+        - apply (Inv_new_item Hh Ha). exact HI.
+        - cbn [l1 know_id know kit kkey kid kidk nitem ikey]. split.
+          + intros Hn. destruct (i_items HI t) as [K _]. rewrite Hv in K. cbn [know kit kkey] in K. destruct (K Hn) as [K1 K2].
+            split; [lia|]. unfold id. destruct (Nat.eqb_spec (kit l) (S (nitem g))); [lia|exact K2].
+          + intros _. split; [unfold id; lia|]. unfold id. rewrite Nat.eqb_refl. reflexivity. }
+      split; [apply frame_set_view|]. split; [apply (same_new_item k HI)|]. split; [eauto|].
+      rewrite view_set_same. cbn beta.
+      apply safe3_nop. apply Conc.safe_bind.
+      eapply Conc.safe_weaken; [|eapply safe3_upd_loop with (is_update := iu) (allow := al) (k := k) (id := id); [unfold id; lia|exact Himp| | |left; reflexivity]].
+      + intros [[x y]|] [l2 s2] (H2 & H3); cbn [fst snd] in *; [|apply safe3_give_up].
+        subst s2. apply safe3_nop. apply safe3_nop.
+        eapply safe3_emit_ret; [|cbn; split; [exact H2|reflexivity]].
+        fold o. unfold res_of, rx. destruct o eqn:Eoo; rewrite ?zb_nz; try reflexivity.
+        unfold o, opU, iu in Eoo. destruct (Nat.eqb_spec c 1) as [E1|]; cbn in Eoo; [discriminate|]. cbn. rewrite andb_true_r. reflexivity.
+      + unfold l1, know_id, know, FeldmanStepSafe.posP, start; cbn. repeat split; auto. rewrite N.mod_1_r. reflexivity.
+      + split; reflexivity.
+    - destruct (Nat.eqb c 7) eqn:E7.
+      + apply safe3_emit_inv. rewrite spec_op_code.
+        assert (N1 : Nat.eqb c 1 = false) by (destruct (Nat.eqb c 1); [discriminate|reflexivity]).
+        assert (N3 : Nat.eqb c 3 = false) by (destruct (Nat.eqb c 1); destruct (Nat.eqb c 3); cbn in Ec; try discriminate; reflexivity).
+        assert (N4 : Nat.eqb c 4 = false) by (destruct (Nat.eqb c 1); destruct (Nat.eqb c 3); destruct (Nat.eqb c 4); cbn in Ec; try discriminate; reflexivity).
+        rewrite N1, N3, N4, E7.
+        apply Conc.safe_bind. eapply Conc.safe_weaken; [|apply safe3_erase_loop; [apply start_posP; exact HPh|left; reflexivity]].
+        intros [[x y]|] [l2 s2] (H2 & H3); cbn [fst snd] in *; [|apply safe3_give_up].
+        subst s2. apply safe3_nop. eapply safe3_emit_ret; [|cbn; split; [exact H2|reflexivity]]. cbn. rewrite zb_nz. reflexivity.
+      + apply safe3_emit_inv. rewrite spec_op_code.
+        assert (N1 : Nat.eqb c 1 = false) by (destruct (Nat.eqb c 1); [discriminate|reflexivity]).
+        assert (N3 : Nat.eqb c 3 = false) by (destruct (Nat.eqb c 1); destruct (Nat.eqb c 3); cbn in Ec; try discriminate; reflexivity).
+        assert (N4 : Nat.eqb c 4 = false) by (destruct (Nat.eqb c 1); destruct (Nat.eqb c 3); destruct (Nat.eqb c 4); cbn in Ec; try discriminate; reflexivity).
+        rewrite N1, N3, N4, E7.
+        apply Conc.safe_bind. eapply Conc.safe_weaken; [|apply safe3_find_loop; [apply start_posP; exact HPh|left; reflexivity]].
+        intros [[x y]|] [l2 s2] (H2 & H3); cbn [fst snd] in *; [|apply safe3_give_up].
+        subst s2. apply safe3_nop. eapply safe3_emit_ret; [|cbn; split; [exact H2|reflexivity]]. cbn. rewrite zb_nz. reflexivity.
+  Qed.
+
+  Lemma safe3_run_ops fuel t : forall os gs l, ph l = PIdle ->
+    safe3 t (run_ops hbits abits W hs fuel t os gs) (l, @Idle SetSpec) (fun _ _ => True).
+  Proof.
+    induction os as [|o r IH]; intros gs l H; cbn [run_ops]; [exact I|].
+    apply Conc.safe_bind. eapply Conc.safe_weaken; [|apply safe3_run_op; exact H].
+    intros [gs'|] [l' s'] H'; cbn in H'; [destruct H' as [H1 H2]; cbn in H2; subst s'; apply IH; exact H1|exact I].
+  Qed.
+
+  Lemma safe3_thread fuel t os l : ph l = PIdle ->
+    safe3 t (thread_prog hbits abits W hs fuel t os) (l, @Idle SetSpec) (@Conc.QTrue L3).
+  Proof.
+    intros H. unfold thread_prog. apply safe3_neutral. intros g A tr HI Hv. exists A. cbn [a_begin fst snd].
+    split; [eapply Inv_trace; exact HI|]. split; [apply frame_refl|]. split; [apply same_refl|]. split; [eauto|]. rewrite Hv.
+    eapply Conc.safe_weaken; [|apply safe3_run_ops; exact H]. intros; exact I.
+  Qed.
+
+  (** ** the initial configuration *)
+  Definition A30 : Aux3 := mkAux3 A0 [] (fun _ => @Idle SetSpec).
+
+  Lemma Inv3_init : Inv3 init A30 [].
+  Proof.
+    split; [apply Inv_init; assumption|]. constructor; cbn.
+    - exists [], (fun _ => @Idle SetSpec). split; [reflexivity|]. split; [reflexivity|].
+      intros x. cbn. split; [discriminate|]. intros (a & i & p & (_ & b & Hs & _ & Hp0) & _). cbn in Hs. inversion Hs; congruence.
+    - reflexivity.
+    - intros t o H. discriminate.
+  Qed.
+
+  Lemma init_ok3 fuel ths : Conc.cfg_ok view3 Inv3 (init_cfg hbits abits W hs fuel ths).
+  Proof.
+    exists A30. split; [exact Inv3_init|].
+    intros t p Hp. cbn [init_cfg Conc.threads] in Hp. destruct (@nth_thread_progs hbits abits W hs Hh Ha fuel ths 0 t p Hp) as (os & ->).
+    cbn [Nat.add]. apply safe3_thread. reflexivity.
+  Qed.
+
+  (** ** linearizability of the Feldman model, every schedule, reads included *)
+  Theorem feldman_linearizable_lp fuel ths c :
+    Conc.reach (init_cfg hbits abits W hs fuel ths) c ->
+    exists atr, lp_valid SetSpec atr /\ erase atr = full_hist hs (Conc.trace c).
+  Proof.
+    intros Hr. destruct (Conc.reach_Inv (init_ok3 fuel ths) Hr) as (A & _ & [(S & stf & H1 & _) H2 _]).
+    exists (atr A). split; [exists (S, stf); exact H1|exact H2].
+  Qed.
+
+  Theorem feldman_linearizable fuel ths c :
+    Conc.reach (init_cfg hbits abits W hs fuel ths) c -> linearizable SetSpec (full_hist hs (Conc.trace c)).
+  Proof.
+    intros Hr. destruct (feldman_linearizable_lp Hr) as (atr & Hv & <-). apply lp_valid_linearizable. exact Hv.
+  Qed.
 End Safe3.
